@@ -76,10 +76,11 @@ DOCS = (
     [['!!!COM: x'], ['**kern'], ['4c'], ['4d'], ['4e'], ['4f'], ['*-']],
     [['**root', '**kern', '**text'], ['C', '4c', 'la'], ['=1', '=1', '=1'], ['G', '4d', 'li'], ['4A', '4e', 'lu'], ['*-', '*-', '*-']],
 )
-KERN_BAD = ('4zz', '4c§', '%%', '4c 4', 'c4z', '', '4d ', ' 4e', '4rP', '8r 8rK', 'rMT', '4c\u20ac', '4\x7fc')     # '' = a cell truncated to nothing (two adjacent TABs)     # malformed in a **kern spine (raise on a fresh importer on the pinned tree)
+KERN_BAD = ('4zz', '4c§', '%%', '4c 4', 'c4z', '', '4d ', ' 4e', '4rP', '8r 8rK', 'rMT', '4c\u20ac', '4\x7fc',
+            '"zz"', '"zz', '4c\u0301', '\u212bzz')    # cells that begin with a double quote (csv dialects); text that is not NFC-normalised     # '' = a cell truncated to nothing (two adjacent TABs)     # malformed in a **kern spine (raise on a fresh importer on the pinned tree)
 
 
-ALWAYS_BAD = ('4c\u20ac', '4\x7fc')       # characters that are not part of the kern alphabet at all: malformed whatever the current parser says
+ALWAYS_BAD = ('4c\u20ac', '4\x7fc', '4c\u0301', '\u212bzz')       # characters that are not part of the kern alphabet at all: malformed whatever the current parser says
 
 
 @native
@@ -266,9 +267,9 @@ OBLIGATIONS = [
        enumerated='history of 2..3 (quick) / 2..4 (thorough) cell texts from a pool of 8 valid and 16 malformed kinds',
        bounds={'quick': 'all 24^2 + 24^3 histories', 'thorough': '+ 24^4'}),
     Ob(id='C12.b', fn=ob_b, title='documents x damage masks: one error per malformed cell with its line, other tokens untouched, verbatim export',
-       shard_of=lambda d, mask, bad: mask, shards={'quick': 8, 'thorough': 16}, budget_s={'quick': 150, 'thorough': 1200},
+       shard_of=lambda d, mask, bad: mask, shards={'quick': 16, 'thorough': 16}, budget_s={'quick': 170, 'thorough': 1200},
        witnesses=[{'d': 0, 'mask': 5, 'bad': 0}], min_confirmed=300, enumerated='document, damage mask over the **kern data cells, malformed kind (rotating over the damaged cells, or the same text in all of them)',
-       bounds={'quick': '4 documents (blank lines, global comments, split/join, non-kern spines) x every subset of the first 6 data cells x 11 malformed kinds (incl. the empty cell, cells with a blank at either end, rests with note-only signs); a **root spine',
+       bounds={'quick': '4 documents (blank lines, global comments, split/join, non-kern spines) x every subset of the first 6 data cells x 17 malformed kinds (incl. the empty cell, cells with a blank at either end, cells beginning with a double quote, text that is not NFC-normalised, rests with note-only signs); a **root spine',
                'thorough': 'first 8 data cells'}),
     Ob(id='C12.b2', fn=ob_b2, title='stub tier: ANY rejected text is wrapped once, reported with its line, exported verbatim',
        budget_s={'quick': 170, 'thorough': 1800}, per_path_s=150.0, shard_of=lambda s, blank, col, second: blank + 3 * col + 6 * (1 if second else 0), shards={'quick': 12, 'thorough': 12},
